@@ -204,6 +204,12 @@ def specPK (rows : List (Row ι ο τ ν)) (o : ο) : List (PKTrace ι τ ν) :=
     | some i => ⟨some i, specDose rows i, specPts rows o i⟩
     | none => ⟨none, [], []⟩)
 
+/-- NOT chi's code — the reading "a row is EITHER a dose event OR a measurement": the measurements of
+    individual `i` selected among the rows WITHOUT a dose. Differs from `specPts` as soon as a measurement
+    is recorded on a dosing row (`C20_split_dose_rows_counterexample`). -/
+def pkMeasurementsSplit (rows : List (Row ι ο τ ν)) (o : ο) (i : ι) : List (τ × ν) :=
+  specPts (rows.filter (fun r => !r.dose.isSome)) o i
+
 end routing
 
 /-! ## rank-based percentile limits and band polygons -/
